@@ -5,7 +5,7 @@ from .framework import classify
 
 
 class Pools:
-    def __init__(self, seed, n_gen=40, n_viol=40, n_cut=40, corpus_limit=None, tag="pool"):
+    def __init__(self, seed, n_gen=40, n_viol=40, n_cut=40, corpus_limit=None, tag="pool", n_comment=24):
         self.files = {}
         self.meta = {}
         self.groups = {}
@@ -43,6 +43,23 @@ class Pools:
                 continue
             k = r.randrange(1, len(spans))
             add("cut", self.files[b]["name"], content[:spans[k][0]], f"{self.meta[b]['origin']}+prefix_tok({k})")
+
+        # members with comments inserted at token boundaries (comments are opaque to C, not always to a rule engine)
+        bases = [fid for fid in self.files if self.meta[fid]["group"] in ("corpus", "gen", "viol", "special_clean", "special_zoo")]
+        for i in range(n_comment):
+            r = core.derive_rng(f"{tag}.comment", seed, i)
+            b = bases[r.randrange(len(bases))]
+            content = self.files[b]["content"]
+            spans = faults.token_offsets(core.N, self.files[b]["name"], content)
+            if len(spans) < 8:
+                continue
+            sp = []
+            for _ in range(r.randrange(1, 4)):
+                k = r.randrange(1, len(spans))
+                cm = r.choice(["/* c */", "/* c */ ", " /* out */", "// c\n", "/*\n** c\n*/", "/**/", " /* a */ /* b */ "])
+                sp.append([spans[k][0], spans[k][0], cm])
+            sp = {a: [a, b2, t] for a, b2, t in sp}.values()
+            add("commented", self.files[b]["name"], faults.apply_splices(content, list(sp)), f"{self.meta[b]['origin']}+comments")
 
     def add(self, group, name, content, origin):
         fid = f"{group[:2]}{len(self.files)}"
